@@ -104,6 +104,38 @@ func (s *pstate) nilness(v ssa.Value) int {
 	case *ssa.Slice:
 		return s.nilness(x.X)
 	}
+	// the result of a function every return of which hands back a fresh object (`coeffs = unitCoeffs(n)`), or nil
+	if c, ok := v.(*ssa.Call); ok {
+		if f := c.Call.StaticCallee(); f != nil && len(f.Blocks) > 0 && f.Signature.Results().Len() == 1 {
+			all := 0
+			allInstrs(f, func(ins ssa.Instruction) {
+				ret, isRet := ins.(*ssa.Return)
+				if !isRet || len(ret.Results) != 1 || all < 0 {
+					return
+				}
+				k := 0
+				switch rv := ret.Results[0].(type) {
+				case *ssa.MakeSlice, *ssa.MakeMap, *ssa.MakeChan, *ssa.Alloc:
+					k = 2
+				case *ssa.Const:
+					if rv.IsNil() {
+						k = 1
+					}
+				}
+				switch {
+				case k == 0:
+					all = -1
+				case all == 0:
+					all = k
+				case all != k:
+					all = -1
+				}
+			})
+			if all > 0 {
+				return all
+			}
+		}
+	}
 	switch s.facts[s.vkey(v)] {
 	case "=nil":
 		return 1
